@@ -94,3 +94,78 @@ def abs : WN → Option PT
     else none
 
 end Verif.Wmpt
+
+namespace Verif.Wmpt
+section
+variable (H : Bytes → Bytes)
+
+/-- the bytes `CalcHash` feeds to the hash function for a spec node -/
+def PT.preimage : PT → Bytes
+  | .none => []
+  | .value v w => be64 w ++ v
+  | .short k c => k ++ PT.hash H c
+  | .branch ch => be64 (PT.weight (.branch ch)) ++ allNib.flatMap (fun i => PT.hash H (ch i))
+
+/-- the entry of child `c` inside an honestly persisted branch (`routingNode.Serialize`) -/
+def PT.childEntry : PT → Bytes
+  | .none => []
+  | .short k c => PT.hash H (.short k c) ++ be64 c.weight ++ PT.hash H c ++ k
+  | c => PT.hash H c ++ be64 c.weight
+
+/-- the persisted form of a spec node (`Serialize`) -/
+def PT.persist : PT → PBase
+  | .none => { nilNode := true }
+  | .value v w => { value := some ⟨v, PT.hash H (.value v w), w⟩ }
+  | .short k c => { short := some ⟨k, PT.hash H (.short k c), pad32 (PT.hash H c) ++ be64 c.weight⟩ }
+  | .branch ch => { branch := some ⟨PT.hash H (.branch ch), allNib.map (fun i => PT.childEntry H (ch i))⟩ }
+
+/-- the honest block proof: the persisted nodes on the weight-ordered descent for block `b` -/
+def PT.proofPairs : PT → Nat → List PBase
+  | .none, _ => []
+  | .value v w, _ => [PT.persist H (.value v w)]
+  | .short k c, b => PT.persist H (.short k c) :: PT.proofPairs c b
+  | .branch ch, b =>
+    PT.persist H (.branch ch) ::
+      (match PT.pick ch allNib b with
+       | Option.none => []
+       | some (i, b') => PT.proofPairs (ch i) b')
+
+/-- the hash pre-images of the nodes on the descent for block `b` -/
+def PT.pathInputs : PT → Nat → List Bytes
+  | .none, _ => []
+  | .value v w, _ => [PT.preimage H (.value v w)]
+  | .short k c, b => PT.preimage H (.short k c) :: PT.pathInputs c b
+  | .branch ch, b =>
+    PT.preimage H (.branch ch) ::
+      (match PT.pick ch allNib b with
+       | Option.none => []
+       | some (i, b') => PT.pathInputs (ch i) b')
+
+/-- the bytes `CalcHash` feeds to the hash function for a dirty implementation node -/
+def WN.preimage : WN → Bytes
+  | .value _ v w _ => be64 w ++ v
+  | .short k _ c _ _ => if c.isNil then k else k ++ (calcHash H c).2
+  | .routing _ ch w _ _ => be64 w ++ allNib.flatMap (fun i => (calcHash H (ch i)).2)
+  | _ => []
+
+/-- the hash pre-images recomputed by `verifyProof` (mirrors its recursion) -/
+def verifyInputs : List PairD → Nat → List Bytes
+  | .ok p :: rest, block =>
+    match deserializeNode p with
+    | .ok (.routing h ch w _ tc) =>
+      (match pickChild ch allNib block with
+       | some (i, b') =>
+         (match verifyProof H rest b' with
+          | .ok (c, _, _) => WN.preimage H (.routing h (upd ch i c) w true tc) :: verifyInputs rest b'
+          | .err _ => [])
+       | none => [])
+    | .ok (.short k h _ _ tc) =>
+      (match verifyProof H rest block with
+       | .ok (c', _, _) => WN.preimage H (.short k h c' true tc) :: verifyInputs rest block
+       | .err _ => [])
+    | .ok (.value h v w _) => [WN.preimage H (.value h v w true)]
+    | _ => []
+  | _, _ => []
+
+end
+end Verif.Wmpt
